@@ -61,12 +61,33 @@ func scratchBase() string {
 
 // buildAll instruments repo into a scratch directory and builds the harness twice.
 func buildAll(repo string, wantRace bool) (*Build, error) {
+	b, err := buildWith(repo, wantRace, true)
+	if err != nil && b != nil && b.Desc != nil && (b.Desc.LockRewrites > 0 || b.Desc.OnceWraps > 0) {
+		// the Lock/Do rewrite did not compile (not a sync mutex): fall back to operation-granular scheduling
+		fmt.Fprintf(os.Stderr, "[simctl] lock rewrite does not compile (%v); falling back to operation-granular scheduling\n", firstLine(err.Error()))
+		b.Cleanup()
+		return buildWith(repo, wantRace, false)
+	}
+	return b, err
+}
+
+func firstLine(s string) string {
+	if i := strings.Index(s, "\n"); i >= 0 {
+		j := strings.Index(s[i+1:], "\n")
+		if j >= 0 {
+			return s[:i+1+j]
+		}
+	}
+	return s
+}
+
+func buildWith(repo string, wantRace bool, rewrite bool) (*Build, error) {
 	scratch, err := os.MkdirTemp(scratchBase(), "rtcp-sim-")
 	if err != nil {
 		return nil, err
 	}
 	b := &Build{Scratch: scratch}
-	desc, err := instrument.Run(repo, filepath.Join(scratch, "rtcp"))
+	desc, err := instrument.RunOpts(repo, filepath.Join(scratch, "rtcp"), rewrite)
 	if err != nil {
 		return b, fmt.Errorf("instrument: %w", err)
 	}
